@@ -825,6 +825,8 @@ def r5_name_agree(c, facts):
                     # Rule B: a like-named source field exists in one of the involved structs -> it must be among the sources
                     like = [(o, spec_fields[o][nf]) for o in structs if o in spec_fields and nf in spec_fields[o]]
                     crossed = [(o, n) for o, n in srcs if norm(n) in targets and norm(n) != nf and any(o2 == o for o2, _ in like)]
+                    # a fallback the language defines (FALLBACK-ORDER decides its precedence) is not a crossing
+                    crossed = [(o, n) for o, n in crossed if not any(fld == f and '%s.%s' % (o, n) == want[1] for _, f, want, _ in FALLBACKS)]
                     delegated = any(callee_of(t2) and callee_of(t2).get('local') for n2, t2, _ in MF.slice_back(fn, s['rv']['ops'][s['rv']['fields'].index(fld)]['l'], idx)['calls'])
                     if like and not any(x in srcs for x in like) and delegated:
                         c.skip(R, '%s:%s.%s' % (fn.qname.split('::')[-1], tname, fld), 'value computed by a workspace helper; the like-named source is read there')
@@ -1036,6 +1038,9 @@ def or_chains(facts, fn):
                 for rv_l in MF.slice_back(f2, a1['l'], idx, through_calls=False)['aggrs'] if 'l' in a1 else []:
                     rv = rv_l[0]
                     if rv.get('ak') == 'closure':
+                        # what the closure captured: a value read before the chain (`let description = xfer.desc.clone()`)
+                        for cop in rv['ops']:
+                            second += ['%s.%s' % x for x in spec_sources(f2, cop, idx)]
                         cl = facts.fns.get(rv['closure_id'])
                         if cl is not None:
                             for place, is_w in operand_places(cl):
